@@ -55,6 +55,13 @@ def call_method(I, recv, name, args, kwargs):
         return int_method(I, recv, name, args, kwargs)
     from .api import SymList
 
+    if type(recv).__name__ == "SMap":
+        if name == "get":
+            h = recv.has(I, args[0])
+            if h is False or not I.path.decide(h):
+                return args[1] if len(args) > 1 else kwargs.get("default")
+            return recv.value_at(I, recv.touched[-1])
+        raise Unsupported(f"method {name} on a symbolic map")
     if isinstance(recv, SymList):
         if name == "append":
             recv.tail.append(args[0])
